@@ -238,6 +238,8 @@ def minimise(job, target, sim_dir, repo, budget=60, wall_budget=150.0):
             out.append(("warm=0", dict(c, warm=0)))
         if c.get("clockq"):
             out.append(("fine clock", dict(c, clockq=0)))
+        if c.get("release"):
+            out.append(("dev profile", dict(c, release=0)))
         if c.get("gens", 1) > 1:
             out.append((f"gens={c['gens'] - 1}", dict(c, gens=c["gens"] - 1)))
         nthreads = c["K"] + (1 if c["main"] else 0)
@@ -461,6 +463,8 @@ def write_evidence_file(tier, seed, jobs, recs, audit, wall, reported, stopped, 
                 "entropy_seedings(one per thread that drew)": sum(runner.nthreads(r["job"]) + (1 if r["job"].get("warm") else 0) for r in ok),
                 "runs_with_main_thread_warm_up_before_workers": sum(1 for r in ok if r["job"].get("warm")),
                 "runs_with_coarse_clock(Instant quantised to 1ms..1s)": sum(1 for r in ok if r["job"].get("clockq")) if runner.SYSROOT else 0,
+                "runs_interpreting_the_release_profile": sum(1 for r in ok if r["job"].get("release")),
+                "runs_with_more_than_255_threads_over_process_life": sum(1 for r in ok if runner.nthreads(r["job"]) > 255),
                 "runs_with_successive_thread_generations": sum(1 for r in ok if r["job"].get("gens", 1) > 1),
                 "threads_started_after_an_earlier_thread_exited": sum(r["job"]["K"] * (r["job"].get("gens", 1) - 1) for r in ok),
                 "preemption_inside_random_call": pre,
